@@ -185,7 +185,12 @@ func main() {
 		case <-done:
 		case <-time.After(5 * time.Second):
 			out.Fail(len(out.Cases), "run-did-not-return", map[string]interface{}{"program": src})
-			continue
+			loop.StopNoWait() // so that the log collected so far can still be judged
+			select {
+			case <-done:
+			case <-time.After(2 * time.Second):
+				continue
+			}
 		}
 		var ls []string
 		for _, x := range logv {
